@@ -151,8 +151,32 @@ KsExact(q, r) ==
       lg == IF Len(q) <= Len(r) THEN r ELSE q
       fw == KsOccs(sh, lg)
       rv == KsOccs(KmerRevCompSeq(sh), lg)
-  IN IF Len(sh) = 0 \/ Cardinality(fw) + Cardinality(rv) # 1 THEN [where |-> "none", rev |-> 0, len |-> 0]
+  IN IF Len(sh) = 0 \/ Cardinality(fw) + Cardinality(rv) # 1 THEN [where |-> "none", rev |-> 0, len |-> 0, pos |-> 0]
      ELSE LET p == CHOOSE x \in fw \cup rv : TRUE
           IN [where |-> IF p = 1 \/ p = Len(lg) - Len(sh) + 1 THEN "end" ELSE "internal",
-              rev |-> IF fw = {} THEN 1 ELSE 0, len |-> Len(sh)]
+              rev |-> IF fw = {} THEN 1 ELSE 0, len |-> Len(sh),
+              pos |-> p]            \* where sh (or its reverse complement when rev = 1) starts in lg, 1-based
+
+(* A second listed deviation, of the placement vote (obikmer.FastShiftFourMer in its default, "relative", mode).   *)
+(* The query a and the reference b (reverse-complemented when the occurrence is on the other strand) are placed at *)
+(* the shift d = position in a minus position in b (0-based) whose shared 4-mers, DIVIDED by the length the vote    *)
+(* believes the overlap has, score highest; equal scores: the smallest shift.  An exact overlap scores 1, the       *)
+(* maximum, whatever its length: an exact overlap of a handful of symbols at a smaller shift (the end of b on the   *)
+(* start of a) ties with the real one and wins.  KsTieBefore says whether such a competitor exists.                *)
+KsMin2(x, y) == IF x <= y THEN x ELSE y
+KsMax2(x, y) == IF x >= y THEN x ELSE y
+KsTrueOver(la, lb, d) == KsMin2(la, d + lb) - KsMax2(0, d)
+KsVotedOver(la, lb, d) == IF d > 0 THEN la - d ELSE IF d < 0 THEN lb + d ELSE KsMin2(la, lb)
+KsPerfectAt(a, b, d) ==
+  LET lo == KsMax2(0, d)  hi == KsMin2(Len(a), d + Len(b)) - 1            \* 0-based positions of a
+  IN /\ hi - lo + 1 >= 4
+     /\ KsVotedOver(Len(a), Len(b), d) = hi - lo + 1
+     /\ \A i \in lo..hi : a[i + 1] = b[i - d + 1]
+KsTieBefore(a, b, dstar) == \E d \in (4 - Len(b))..(dstar - 1) : KsPerfectAt(a, b, d)
+
+(* the shift of the exact overlap e = KsExact(q, r) when q is placed against r (or its reverse complement) *)
+KsExactShift(q, r, e) ==
+  IF Len(q) <= Len(r)
+  THEN (IF e.rev = 0 THEN -(e.pos - 1) ELSE -(Len(r) - e.pos - Len(q) + 1))
+  ELSE e.pos - 1
 =============================================================================
